@@ -5,7 +5,7 @@ SPEC = {
         {"name": "c03", "pkg": "./zz_verif/c03", "run": "^TestC03",
          "configs": [c for c in CPU_OFF if c["name"] in ("default", "noavx2", "purego")],
          "quick_configs": ["default", "noavx2"],
-         "shards": {"quick": 3, "thorough": 16}},
+         "shards": {"quick": 4, "thorough": 16}},
         # white-box: sweeps of the helper functions of pke/kyber/internal/common over their documented domains
         {"name": "c03wb", "pkg": "./pke/kyber/internal/common", "run": "^TestVC03", "whitebox": True,
          "shards": {"quick": 2, "thorough": 16}},
@@ -14,7 +14,7 @@ SPEC = {
             "(ek, dk, ct, K, Decaps(c), K-PKE Encrypt/Decrypt, accept/refuse of key parsing, re-encoding) with the reference zz_verif/ref/mlkem "
             "(FIPS 203 resp. round-3 Kyber written from the specification; self-tested against NIST ACVP vectors and the round-3 KAT digests). "
             "non-trivial = decapsulation/decryption of a non-honest ciphertext (bit-flipped, random, compressed-field boundary patterns, ciphertexts steered so that v-s.u sits on a Compress_1 rounding boundary, honest ciphertext of another m), "
-            "parsing of a malformed key (coefficient in [q,4096), corrupted H(ek), wrong length) or of a well-formed variant, keys with unreduced coefficients at the K-PKE level, "
+            "single-bit flips of one honest ciphertext per parameter set (thorough: every bit; quick: every bit of the last 256 and first 32 bytes plus every 8th bit elsewhere, offset rotating with the seed), parsing of a malformed key (coefficient in [q,4096), corrupted H(ek), wrong length) or of a well-formed variant (incl. consistent keys with edge matrix seeds rho = 0^32, 1^32, one bit, and Unpack into a key object that held another key), keys with unreduced coefficients at the K-PKE level, "
             "a CBD PRF stream, an NTT boundary polynomial, a four-way sampling call whose lanes finish in different SHAKE128 blocks; distinct by FNV-64 of the case. "
             "White-box helper sweeps (barrettReduce, toMont, csubq, montReduce over its whole documented domain of 218 169 344 values, Compress_d/Decompress_d for d in {1,4,5,10,11} at all 256 positions, "
             "Pack/Unpack, Normalize/BarrettReduce, all 65 536 monomial products and all sign-pattern polynomials through NTT/MulHat/InvNTT on the generic and the AVX2 back-end) are complete enumerations "
